@@ -505,7 +505,7 @@ mod archives {
     const META: usize = 32;           // RrdpObjectMeta::SIZE
     const FILE_HDR: usize = 30;       // magic (6) + hash key (16) + bucket count (8)
     /// The worker refuses single allocations above this (recorded first); far above the oracle's bound.
-    const ALLOC_CAP: usize = 16 << 20;
+    const ALLOC_CAP: usize = 12 << 20;
     /// `objects()` of a file of a few KiB that yields this many items does not end.
     const ITER_CAP: u64 = 200_000;
     const ABSENT: &str = "rsync://example.net/repo/ca/never-published.roa";
